@@ -309,7 +309,7 @@ func scenarioC10(r *Run) {
 		}
 		left := 0
 		var sample string
-		for k := range pl.keys {
+		for _, k := range sortedKeys(pl.keys) {
 			if state[k] == 1 {
 				left++
 				sample = k
@@ -353,7 +353,7 @@ func scenarioC10(r *Run) {
 		if pl.ended || pl.trigger != "none" || faultMode == 1 || r.Faults["agent-stall"] > 0 {
 			continue
 		}
-		for k := range pl.keys {
+		for _, k := range sortedKeys(pl.keys) {
 			if state[k] != 1 {
 				r.Violate("C10", "other-association-affected", "association of peer%d had no trigger but its entry %s was removed", pl.p.Idx, k)
 				break
